@@ -26,6 +26,7 @@ ValidRun(p, r) ==
   IF r.kind = "clean" THEN TRUE
   ELSE IF Body(p)[r.k].op = "W" THEN r.p <= Len(Body(p)[r.k].toks) ELSE r.p = 0
 
+Program == IF run.kind = "clean" THEN Prog(c) ELSE Interrupted(c, run.k, run.p)
 Stream == IF run.kind = "clean" THEN Flat(Prog(c), 1) ELSE Flat(Interrupted(c, run.k, run.p), 1)
 N == Len(Stream)
 
@@ -76,4 +77,9 @@ Spec == Init /\ [][Next]_vars
 SamePlaceEveryFrame == bad # "StepOK"
 EndsBelowBox == bad # "EndsBelow"
 InterruptedRunRestores == bad # "RestoredAfterCut"
+\* whatever operation the run is cut at (k = 1 is the hide-cursor write on a tty), the render
+\* data is finalized exactly once, and no body operation of a run follows the finalization
+FinalizedBeforeReturn ==
+  /\ Finalizations(Program) = 1
+  /\ \A i \in 1..Len(Program) : Program[i].op = "Z" => \A j \in (i + 1)..Len(Program) : Program[j].op \notin {"R", "S"}
 =============================================================================
